@@ -18,6 +18,10 @@ pub use parser::{BiasComputer, Parser, ParserError, ParserMetrics, ParserRecogni
 pub use slicer::SlicedBiasComputer;
 
 #[cfg(feature = "llg_verif")]
+pub use from_guidance::verif_optimizer_dump;
+#[cfg(feature = "llg_verif")]
+pub use grammar::VerifSym;
+#[cfg(feature = "llg_verif")]
 pub use parser::VerifState;
 #[cfg(feature = "llg_verif")]
 pub use slicer::{VerifSlice, VERIF_SLICE_LOG};
